@@ -29,17 +29,24 @@ if [ "${FULLSUITE:-0}" = 1 ]; then
   suite=$(cat /tmp/seed_suite_$$.log)
   echo "   $suite"
 fi
-echo "== checks against the patched /repo"
-git -C /repo apply "$src/patch.diff" || exit 2
+if [ "${MODE:-path}" = repo ]; then
+  echo "== checks against the patched /repo"
+  git -C /repo apply "$src/patch.diff" || exit 2
+  pp=""
+else
+  echo "== checks against the patched scratch worktree (PYTHONPATH)"
+  pp="$wt"
+fi
 results=""
 for id in $pid $extra; do
-  out=$(timeout 1500 ./check "$id" quick 2>&1 | grep -v condarc); rc=$?
+  out=$(PYTHONPATH="$pp" timeout 1500 ./check "$id" quick 2>&1 | grep -v condarc); rc=$?
+  rc=$(echo "$out" | grep -q "^VIOLATION" && echo 1 || (echo "$out" | grep -q "CHECK-BROKEN" && echo 2 || echo 0))
   line=$(echo "$out" | grep -E "^VIOLATION|CHECK-BROKEN" | head -1)
   what=$(echo "$out" | grep "^  what:" | head -1 | cut -c1-260)
   echo "   $id: exit=$rc $line"
   [ -n "$what" ] && echo "      $what"
   results="$results $id:$rc"
 done
-git -C /repo checkout -- .
+[ "${MODE:-path}" = repo ] && git -C /repo checkout -- .
 echo "SUMMARY src=$src clean=$clean patched=$patched suite='$suite' checks=$results"
 rm -f /tmp/seed_*_$$.log
